@@ -66,7 +66,7 @@ sx_enum! {
         // position class, generation class
         Aimed { a: u8, idb: u8, pos: u8, n: u32, gen: u8 },
         // a direct handle minted in a scratch world so that its version equals ours; `idx` class
-        // 0: index 0, 1: len-1, 2: len, 3: len+1
+        // 0: index 0, 1: len-1, 2: len, 3: len+1, 4: capacity-1, 5: capacity, 6/7: index 0 with version -1/+1
         Direct { a: u8, idx: u8 },
     }
 }
